@@ -4,7 +4,7 @@ CONSTANTS
   Tries = 2
   MaxReplies = 2
   Rapid = FALSE
-  Inform = FALSE
+  Inform = TRUE
   EmitCases = FALSE
 VIEW View
 INVARIANTS LeaseRule NakRule RequestRule InformRule Emit
